@@ -649,6 +649,9 @@ pub fn run_once(p: &BtParams, hist: &[usize]) -> StepReport {
         if a.height >= 3 {
             *counters.entry("states_with_height_ge_3".into()).or_insert(0) += 1;
         }
+        if a.height >= 4 {
+            *counters.entry("states_with_height_ge_4".into()).or_insert(0) += 1;
+        }
         if a.pages_overflow > 0 {
             *counters.entry("states_with_overflow_chains".into()).or_insert(0) += 1;
         }
@@ -710,7 +713,8 @@ pub fn run_once(p: &BtParams, hist: &[usize]) -> StepReport {
     // that chain leaves the separator pointing at freed, later reused pages, and key comparisons through it fail.
     // Such a history is not judged by C10 from the first aliasing on.
     let alias_id = "KT-separator-aliases-overflow-chain";
-    if p.mode == "C10" && c10.is_some() && p.triggers.iter().any(|t| t == alias_id) && alias_seen {
+    let divider_hit = c10.as_ref().map_or(false, |f| p.triggers.iter().any(|t| t == "KT-divider-does-not-fit-parent" && trigger_matches(t, f, &ops)));
+    if p.mode == "C10" && c10.is_some() && !divider_hit && p.triggers.iter().any(|t| t == alias_id) && alias_seen {
         rep.status = "tainted".into();
         rep.findings = vec![alias_id.to_string()];
         rep.detail = format!("{}\n{}", c10.clone().unwrap(), log.join("\n"));
@@ -750,6 +754,8 @@ fn trigger_matches(id: &str, failure: &str, ops: &[&TOp]) -> bool {
     });
     match id {
         "KT-separator-aliases-overflow-chain" => failure.contains("owners") && failure.contains("interior separator") && has_big,
+        // the operation itself fails, with the storage-full error raised by the page insert that rebalancing does on the parent
+        "KT-divider-does-not-fit-parent" => failure.contains("failed:") && failure.contains("Attempted to insert with overflow on a btreepage"),
         _ => false,
     }
 }
